@@ -4,22 +4,20 @@ CONSTANTS
   N = 3
   M = 0
   P = 0
-  Vals = {0, 1}
+  Vals = {0, 1, 2}
   MaxLen = 3
   MaskLen = 2
   Tols <- Tols4
   Gens <- Gens5
-  Targets <- Targets3
-  MTols <- Tol0
+  Targets <- Targets4
+  MTols <- Tol1h
   MGens = {1, 2}
   MTargets <- MTargets2
-  PrsCat <- PrsQuick
+  PrsCat <- PrsMid
   IdxCat <- IdxQuick
   MaxMask = 0
+  Part = 0
 INVARIANT FixedPoint
 INVARIANT ReportIsDetectMinusMask
 INVARIANT MaskGrows
-INVARIANT TolMonotone
-INVARIANT WindowMonotone
-INVARIANT WholeHistory
 INVARIANT Emit
